@@ -116,6 +116,52 @@ func HarnessC14Step(a []int) {
 	verifAssert("C14.step.inbound_closed_after_close", !open)
 }
 
+func init() {
+	verifHarnesses["HarnessC14Big"] = HarnessC14Big
+}
+
+// HarnessC14Big: a = {retain count R, payload bytes n}: R+2 telegrams with n-byte payloads (each filled
+// with its own number) are sent through a client built by NewRouter, then all R retained ones are
+// reported lost: the repetitions are those R telegrams, in order, byte for byte (history storage that
+// only shows with a full default-sized history and realistic payload sizes).
+func HarnessC14Big(a []int) {
+	R, n := a[0], a[1]
+	router, in := newRouterEnv(uint(R), 0)
+	mk := func(i int) cemi.Message {
+		data := make([]byte, n)
+		for j := range data {
+			data[j] = byte(i + 1)
+		}
+		data[0] &= 0x3F // the wire keeps six bits of the first payload byte
+		return &cemi.LDataInd{LData: cemi.LData{Control1: cemi.Control1NoRepeat, Control2: cemi.Control2GroupAddr,
+			Destination: uint16(100 + i), Data: &cemi.AppData{Command: cemi.GroupValueWrite, Data: data}}}
+	}
+	for i := 0; i < R+2; i++ {
+		verifAssert("C14.big.sent", router.Send(mk(i)) == nil)
+	}
+	base := verifNetWrites()
+	in <- &knxnet.RoutingLost{Count: uint16(R)}
+	verifSleep(int64(time.Second))
+	verifQuiesce()
+	verifAssert("C14.big.resent_count", verifNetWrites() == base+R)
+	for k := 0; k < R; k++ {
+		var srv knxnet.Service
+		_, err := knxnet.Unpack(verifNetWrite(base+k), &srv)
+		ind, ok := srv.(*knxnet.RoutingInd)
+		verifAssert("C14.big.decodes", err == nil && ok)
+		ld, ok := ind.Payload.(*cemi.LDataInd)
+		verifAssert("C14.big.kind", ok)
+		i := 2 + k
+		verifAssert("C14.big.order", int(ld.Destination) == 100+i)
+		app, ok := ld.Data.(*cemi.AppData)
+		verifAssert("C14.big.payload_len", ok && len(app.Data) == n)
+		for j := 1; j < n; j++ {
+			verifAssert("C14.big.payload_unchanged", app.Data[j] == byte(i+1))
+		}
+	}
+	verifCover("C14.big.end")
+}
+
 // HarnessC14Run: a = {scenario}: the real server goroutine (started by NewRouter) with senders,
 // indications, a slow or absent reader and Close. No deadlock, every received routing indication
 // reaches Inbound exactly once (while the reader keeps reading), Inbound is closed after Close.
